@@ -297,11 +297,14 @@ class Cycle:
         self.findings = []          # (class, text)
         self.sent = {p: 0 for p in PROTOS}
         self.want_dec = {p: 0 for p in PROTOS}
-        self.want_lines = 0
-        self.expected = {}          # payload -> multiplicity (datagrams sent so far)
+        # the lines at the sink: `must` = payloads of the datagrams sent in the paced part (each arrives exactly as often), `may` =
+        # payloads of the burst (each arrives at most as often); `got` = what has arrived, taken over from the sink line by line
+        self.must, self.may, self.got = {}, {}, {}
+        self.must_total = self.have_must = self.seen = 0
         self.vf = self.sink = None
         self.peak_queue = 0
         self.polls = 0
+        self.when = "while the stream was being sent"
 
     # ------------------------------------------------------------------ helpers
     def fail(self, cls, text):
@@ -309,27 +312,20 @@ class Cycle:
 
     def stats(self):
         """/flow of the collector, or Abort: a dead process is a finding, an unreachable API no verdict"""
-        for _ in range(3):
-            self.polls += 1
-            st = self.vf.stats()
-            if st is not None and all(isinstance(st.get(STAT[p]), dict) for p in PROTOS):
-                return st
-            if self.vf.proc.poll() is not None:
-                self.died("while the stream was being sent")
-            time.sleep(0.05)
-        if self.vf.proc.poll() is not None:
-            self.died("while the stream was being sent")
-        # alive but silent for 3 x 1 s: wait longer before giving up (a loaded machine), then no verdict
         t0 = time.time()
-        while time.time() - t0 < NO_PROGRESS_S:
+        k = 0
+        while True:
             self.polls += 1
             st = self.vf.stats()
             if st is not None and all(isinstance(st.get(STAT[p]), dict) for p in PROTOS):
                 return st
             if self.vf.proc.poll() is not None:
-                self.died("while the stream was being sent")
-            time.sleep(0.2)
-        raise Abort("no-stats")
+                self.died(self.when)
+            k += 1
+            # alive but silent: keep asking for NO_PROGRESS_S more (a loaded machine), then no verdict
+            if k >= 3 and time.time() - t0 > NO_PROGRESS_S:
+                raise Abort("no-stats")
+            time.sleep(0.05 if k < 3 else 0.2)
 
     def died(self, when):
         rc = self.vf.proc.wait()
@@ -347,6 +343,34 @@ class Cycle:
     def counters(self, st):
         return {p: (st[STAT[p]]["UDPCount"], st[STAT[p]]["DecodedCount"]) for p in PROTOS}
 
+    def absorb(self):
+        """take over the lines that have arrived at the sink since the last call: a line that is the payload of no datagram sent is
+        `invented`, one that arrived more often than datagrams with this payload were sent `duplicate` (wrong whatever happens next)"""
+        with self.sink.lock:
+            new = self.sink.lines[self.seen:]
+        self.seen += len(new)
+        for _, l in new:
+            l = norm_line(l)
+            g = self.got[l] = self.got.get(l, 0) + 1
+            m = self.must.get(l, 0)
+            if g <= m:
+                self.have_must += 1
+            elif g > m + self.may.get(l, 0):
+                if m + self.may.get(l, 0) == 0:
+                    self.fail("invented", "a line at the sink is the payload of no datagram sent (%d octets): %s" % (len(l), l[:300].decode("utf-8", "replace")))
+                else:
+                    self.fail("duplicate", "a payload arrived %d times at the sink, %d datagram(s) with this payload were sent: %s"
+                              % (g, m + self.may.get(l, 0), l[:300].decode("utf-8", "replace")))
+                raise Abort()
+
+    def missing(self):
+        """a payload of the paced part that has not arrived (None when all have)"""
+        for l, e in self.must.items():
+            if self.got.get(l, 0) < e:
+                return "the payload of a decodable datagram did not arrive at the sink (%d of %d; the 1000-slot queue cannot have been full): %s" % (
+                    self.got.get(l, 0), e, l[:300].decode("utf-8", "replace"))
+        return None
+
     def outstanding(self, st, lines=True):
         """what the collector still owes: [(protocol, what, have, want)]"""
         out = []
@@ -356,8 +380,8 @@ class Cycle:
                 out.append((p, "UDPCount", u, self.sent[p]))
             if d < self.want_dec[p]:
                 out.append((p, "DecodedCount", d, self.want_dec[p]))
-        if lines and self.sink.count() < self.want_lines:
-            out.append(("sink", "lines", self.sink.count(), self.want_lines))
+        if lines and self.have_must < self.must_total:
+            out.append(("sink", "lines", self.have_must, self.must_total))
         return out
 
     def excess(self, st):
@@ -373,13 +397,13 @@ class Cycle:
             if d > self.want_dec[p]:
                 self.fail("count", "%s DecodedCount = %d, but of the %d datagrams sent to its port only %d decode successfully "
                           "(reference: the real decoder in-process, same order)" % (STAT[p], d, self.sent[p], self.want_dec[p]))
-        if self.sink.count() > self.want_lines:
-            self.check_sink(final=False)
         if self.findings:
             raise Abort()
+        self.absorb()
 
-    def wait_quiet(self, what, lines=True):
-        """poll until nothing is outstanding. No progress for NO_PROGRESS_S: loss (no verdict), stall or a short counter"""
+    def wait_quiet(self, what, lines=True, only_received=False):
+        """poll until nothing is outstanding (only_received: until every datagram sent has been counted as received).
+        No progress for NO_PROGRESS_S: loss (no verdict), stall or a short counter"""
         last, t_prog = None, time.time()
         while True:
             st = self.stats()
@@ -387,108 +411,82 @@ class Cycle:
             for p in PROTOS:
                 self.peak_queue = max(self.peak_queue, st[STAT[p]].get("UDPQueue", 0))
             out = self.outstanding(st, lines)
+            if only_received:
+                out = [o for o in out if o[1] == "UDPCount"]
             if not out:
                 return st
-            cur = (self.counters(st), self.sink.count())
+            cur = (self.counters(st), self.seen)
             if cur != last:
                 last, t_prog = cur, time.time()
             elif time.time() - t_prog > NO_PROGRESS_S:
                 self.no_progress(st, out, what)
-            time.sleep(0.004)
+            time.sleep(0.002 if only_received else 0.004)
+
+    def queued(self, st):
+        """datagrams / messages waiting inside the collector or in front of it"""
+        q = []
+        for p in PROTOS:
+            ks = udp6_socket_state(self.vf.ports[PORT_IDX[p]])
+            uq, mq = st[STAT[p]].get("UDPQueue", 0), st[STAT[p]].get("MessageQueue", 0)
+            if uq > 0 or mq > 0 or (ks and ks[0] > 0):
+                q.append("%s: %d in the UDP queue, %d in the message queue, %d octets in the socket" % (STAT[p], uq, mq, ks[0] if ks else -1))
+        return q
 
     def no_progress(self, st, out, what):
         p, name, have, want = out[0]
-        queued = []
-        for q in PROTOS:
-            ks = udp6_socket_state(self.vf.ports[PORT_IDX[q]])
-            uq = st[STAT[q]].get("UDPQueue", 0)
-            if name == "UDPCount" and q == p:
-                if ks is None or ks[1] > 0:
-                    raise Abort("lost:%s" % p)          # the kernel dropped datagrams (or cannot say): no verdict
-            if uq > 0 or (ks and ks[0] > 0):
-                queued.append("%s: %d in the UDP queue, %d octets in the socket" % (STAT[q], uq, ks[0] if ks else -1))
+        if name == "UDPCount":
+            ks = udp6_socket_state(self.vf.ports[PORT_IDX[p]])
+            if ks is None or ks[1] > 0:
+                raise Abort("lost:%s" % p)          # the kernel dropped datagrams (or cannot say): no verdict
+        queued = self.queued(st)
         txt = "%s %s = %d, expected %d, unchanged for %.0f s %s" % (STAT.get(p, p), name, have, want, NO_PROGRESS_S, what)
         if queued:
             self.fail("stall", "no progress of UDPCount / DecodedCount for %.0f s while datagrams are queued (%s); %s" % (NO_PROGRESS_S, "; ".join(queued), txt))
         elif name == "lines":
-            self.check_sink(final=True)
-            if not self.findings:
-                self.fail("missing", txt)
+            self.fail("missing", (self.missing() or txt) + " (%d of %d lines after %.0f s without progress %s)" % (have, want, NO_PROGRESS_S, what))
         else:
             self.fail("count-short", txt + (" (the kernel reports no drop for the socket and its receive queue is empty)" if name == "UDPCount" else
                                             " (reference: the real decoder in-process, same order)"))
         raise Abort()
 
-    def check_sink(self, final):
-        """the lines at the sink against the payloads of the datagrams sent so far: none invented, none twice; final: none missing"""
-        got = {}
-        for _, l in self.sink.snapshot():
-            l = norm_line(l)
-            got[l] = got.get(l, 0) + 1
-        for l, k in got.items():
-            e = self.expected.get(l, 0)
-            if e == 0:
-                self.fail("invented", "a line at the sink is the payload of no datagram sent (%d octets): %s" % (len(l), l[:300].decode("utf-8", "replace")))
-                return
-            if k > e:
-                self.fail("duplicate", "a payload arrived %d times at the sink, %d datagram(s) with this payload were sent: %s" % (k, e, l[:300].decode("utf-8", "replace")))
-                return
-        if final:
-            for l, e in self.expected.items():
-                if got.get(l, 0) < e:
-                    self.fail("missing", "the payload of a decodable datagram did not arrive at the sink (%d of %d; the queue cannot have been full: "
-                              "%d messages in all): %s" % (got.get(l, 0), e, self.want_lines, l[:300].decode("utf-8", "replace")))
-                    return
-
     def send(self, items, paced=True):
-        """send the items; paced: a chunk per protocol, the next one when the collector has counted the previous one"""
+        """send the items. paced: a chunk per protocol, the next one when the collector has counted the previous one (so the
+        socket buffer cannot overflow); their payloads must arrive. Not paced (the burst): at full speed, loss is expected,
+        their payloads may arrive"""
         by = {p: [it for it in items if it.proto == p] for p in PROTOS}
         pos = {p: 0 for p in PROTOS}
         socks = {}
         try:
             while any(pos[p] < len(by[p]) for p in PROTOS):
                 for p in PROTOS:
-                    budget = 65536
+                    budget = 65536 if paced else 1
                     while pos[p] < len(by[p]) and budget > 0:
                         it = by[p][pos[p]]
                         s = socks.get(it.ip)
                         if s is None:
                             s = socks[it.ip] = socket.socket(socket.AF_INET, socket.SOCK_DGRAM)
                             s.bind((it.ip, 0))
+                        if it.cls == "d":
+                            if paced:
+                                self.must[it.payload] = self.must.get(it.payload, 0) + 1
+                                self.must_total += 1
+                            else:
+                                self.may[it.payload] = self.may.get(it.payload, 0) + 1
                         try:
                             s.sendto(it.dg, ("127.0.0.1", self.vf.ports[PORT_IDX[p]]))
                         except OSError as e:
                             raise Abort("send-failed:%s" % e.__class__.__name__)
                         pos[p] += 1
-                        self.sent[p] += 1
-                        if counts_as_decoded(it):
-                            self.want_dec[p] += 1
-                        if it.cls == "d":
-                            self.want_lines += 1
-                            self.expected[it.payload] = self.expected.get(it.payload, 0) + 1
+                        if paced:
+                            self.sent[p] += 1
+                            if counts_as_decoded(it):
+                                self.want_dec[p] += 1
                         budget -= len(it.dg) + 1280
-                        if not paced:
-                            budget = 1
                 if paced:
-                    self.wait_received()
+                    self.wait_quiet(self.when, only_received=True)
         finally:
             for s in socks.values():
                 s.close()
-
-    def wait_received(self):
-        last, t_prog = None, time.time()
-        while True:
-            st = self.stats()
-            self.excess(st)
-            out = [o for o in self.outstanding(st, lines=False) if o[1] == "UDPCount"]
-            if not out:
-                return
-            cur = self.counters(st)
-            if cur != last:
-                last, t_prog = cur, time.time()
-            elif time.time() - t_prog > NO_PROGRESS_S:
-                self.no_progress(st, out, "while the stream was being sent")
-            time.sleep(0.002)
 
     # ------------------------------------------------------------------ the cycle
     def run(self):
@@ -510,9 +508,9 @@ class Cycle:
             self.sink.close()
             shutil.rmtree(wdir, ignore_errors=True)
 
-    def body(self, wdir):
+    def prepare_stream(self):
+        """the datagrams of the cycle with their reference results: (items of the paced part, template probes, data probes, burst)"""
         rng = self.rng
-        # ---- the stream and its reference
         share = {"ipfix": 0.34, "nf9": 0.33, "nf5": 0.16, "sflow": 0.17}
         items, nexp = build_stream(self.seed, self.n, {p: int(self.dg * share[p]) for p in PROTOS})
         # the probes of C01 / C02 (sent after the stream): fresh exporters, a template and a data record per template protocol
@@ -524,13 +522,14 @@ class Cycle:
                     Item("nf9", -1, 1, pip[1], e2e.v9_msg([e2e.data_set(400, fields, rng, 2, 0)], 2)),
                     Item("nf5", -1, 0, pip[2], e2e.v5_msg(rng.choice([1, 3, 30]))),
                     Item("sflow", -1, 0, pip[3], sflow_probe(rng))]
-        for it in probes_t + probes_d:
+        probes = probes_t + probes_d
+        for it in probes:
             it.part = "probe"
-        err = reference(items + probes_t + probes_d, self.udp_size)
+        err = reference(items + probes, self.udp_size)
         if err:
             raise Abort("reference:" + err[:60])
-        if [it.cls for it in probes_t + probes_d] != ["t", "t", "d", "d", "d", "d"]:
-            raise Abort("reference:probes classed %s" % "".join(it.cls for it in probes_t + probes_d))
+        if [it.cls for it in probes] != ["t", "t", "d", "d", "d", "d"]:
+            raise Abort("reference:probes classed %s" % "".join(it.cls for it in probes))
         # a session ends behind a datagram whose completion cannot be observed (it changed the cache and does not count as
         # decoded) or on which the reference itself panicked / hung (the collector is expected to die there)
         keep, cut = [], set()
@@ -542,16 +541,73 @@ class Cycle:
             if (it.cls == "x" and it.chg) or it.cls in ("p", "h"):
                 cut.add(k)
         items = keep
+        burst = []
+        if self.burst:
+            # the burst: datagrams of the stream again, at full speed, behind everything else. Only datagrams that leave the template
+            # cache alone, so that what each of them yields does not depend on the order in which the workers take them: the reference
+            # replays [stream, probes, burst] and whatever changed the cache in the burst position is taken out and the replay repeated
+            cands = [it for it in items if not it.chg and (it.proto, it.sess) not in cut and it.cls in ("x", "t", "m", "d")]
+            burst = [Item(c.proto, -2, j, c.ip, c.dg) for j, c in enumerate(rng.choices(cands, k=self.dg // 2))] if cands else []
+            for it in burst:
+                it.part = "burst"
+            first = [(it.cls, it.payload) for it in items + probes]
+            for attempt in range(5):
+                err = reference(items + probes + burst, self.udp_size)
+                if err:
+                    raise Abort("reference:" + err[:60])
+                if [(it.cls, it.payload) for it in items + probes] != first:
+                    raise Abort("reference:second replay differs")
+                if not any(it.chg or it.cls not in ("x", "t", "m", "d") for it in burst):
+                    break
+                burst = [it for it in burst if not it.chg and it.cls in ("x", "t", "m", "d")]
+            else:
+                burst = []
         nph = max([it.idx for it in items] + [0]) + 1
         for j, it in enumerate(items):
             it.phase = it.idx if it.proto in ("ipfix", "nf9") else j % nph
+        dist = {}
+        for it in items + burst:
+            k = ("burst:" if it.part == "burst" else "") + it.proto + "/" + it.cls
+            dist[k] = dist.get(k, 0) + 1
+        self.sample.update({"datagrams": len(items), "phases": nph, "classes": dist, "zero_length_specs_max": max([it.z for it in items] + [0]),
+                            "octets": sum(len(it.dg) for it in items), "burst_datagrams": len(burst)})
+        return items, probes_t, probes_d, burst
+
+    def memory(self, vf, items, sys0, t_stream, what):
+        """C02: resident memory (high-water mark) and the allocation volume the collector reports, against bounds that depend on the
+        configuration and on the octets sent. An excess is finding K4 (`fail:amplification`) only as far as the zero-length term explains
+        it: the reference counted k4_fields decoded fields beyond the octets of their datagrams; anything above is an ordinary violation"""
+        hwm = proc_status_kb(vf.proc.pid, "VmHWM")
+        sys1 = sys_stats(vf)
+        self.polls += 1
+        nworkers = 4 * self.workers
+        octets = sum(len(it.dg) for it in items)
         zmax = max([it.z for it in items] + [0])
         k4_fields = sum(extra_fields(it, self.udp_size) for it in items)
-        dist = {}
-        for it in items:
-            dist[it.proto + "/" + it.cls] = dist.get(it.proto + "/" + it.cls, 0) + 1
-        self.sample.update({"datagrams": len(items), "phases": nph, "classes": dist, "zero_length_specs_max": zmax, "k4_extra_fields": k4_fields,
-                            "octets": sum(len(it.dg) for it in items)})
+        k4_alloc = ALLOC_PER_EXTRA_FIELD * k4_fields
+        k4_txt = ("; the stream installs templates with up to %d zero-length field specifiers: %d decoded fields consume no octet of "
+                  "their datagram (K4), allowance %d bytes" % (zmax, k4_fields, k4_alloc)) if k4_fields else ""
+        rss_bound = RSS_FLOOR_KB + (4 * 1000 + 2 * nworkers) * self.udp_size // 1024
+        self.sample.update({"vmhwm_kb": hwm, "vmhwm_bound_kb": rss_bound, "k4_extra_fields": k4_fields})
+        if hwm is not None and hwm > rss_bound:
+            self.fail("amplification" if hwm <= rss_bound + k4_alloc // 1024 else "rss",
+                      "VmHWM of the collector is %d kB %s (%d datagrams, %d octets); bound for %d workers and read buffers of %d octets: %d kB%s"
+                      % (hwm, what, len(items), octets, nworkers, self.udp_size, rss_bound, k4_txt))
+        if sys0 and sys1:
+            alloc = sys1["MemTotalAlloc"] - sys0["MemTotalAlloc"]
+            lin = (ALLOC_BASE + sum(ALLOC_PER_DGRAM + ALLOC_PER_OCTET * min(len(it.dg), self.udp_size) for it in items)
+                   + ALLOC_PER_POLL * (self.polls + 2) + int(ALLOC_PER_SECOND * (time.time() - t_stream + 1)))
+            self.sample.update({"total_alloc": alloc, "total_alloc_bound": lin})
+            if alloc > lin:
+                self.fail("amplification" if alloc <= lin + k4_alloc else "alloc",
+                          "the collector reports %d bytes allocated (/sys MemTotalAlloc) %s (%d datagrams of %d octets in all); linear bound %d%s"
+                          % (alloc, what, len(items), octets, lin, k4_txt))
+        if self.findings:
+            raise Abort()
+
+    def body(self, wdir):
+        items, probes_t, probes_d, burst = self.prepare_stream()
+        nph = self.sample["phases"]
 
         # ---- the collector
         open(os.path.join(wdir, "mq.conf"), "w").write("url: 127.0.0.1:%d\nprotocol: tcp\nretry-max: 2\n" % self.sink.port)
@@ -571,7 +627,7 @@ class Cycle:
         while vf.stats() is None:
             if vf.proc.poll() is not None:
                 if "address already in use" in vf.log():
-                    raise Abort("not-started")
+                    raise Abort("not-started")      # the statistics port was taken by another process meanwhile
                 self.died("right after the start")
             if time.time() - t0 > NO_PROGRESS_S:
                 raise Abort("no-stats")
@@ -583,7 +639,7 @@ class Cycle:
         for p in PROTOS:
             before = self.counters(self.stats())
             self.send([it for it in items if it.phase == 0 and it.proto == p])
-            st = self.wait_quiet("after phase 0 of " + p, lines=False)
+            self.wait_quiet("after phase 0 of " + p, lines=False)
             time.sleep(0.01)
             after = self.counters(self.stats())
             for q in PROTOS:
@@ -597,50 +653,23 @@ class Cycle:
         for ph in range(1, nph):
             self.send([it for it in items if it.phase == ph])
             self.wait_quiet("after phase %d" % ph, lines=False)
-        st = self.wait_quiet("at the end of the stream")
-        # quiescence: the counters are where they must be; nothing may move any more
+        self.wait_quiet("at the end of the stream")
+        # quiescence: the counters and the sink are where they must be; nothing may move any more
         time.sleep(0.05)
-        st = self.stats()
-        self.excess(st)
-        self.check_sink(final=True)
-        if self.findings:
-            raise Abort()
-        self.sample.update({"sent": dict(self.sent), "decoded": dict(self.want_dec), "published": self.want_lines,
+        self.excess(self.stats())
+        self.sample.update({"sent": dict(self.sent), "decoded": dict(self.want_dec), "published": self.must_total,
                             "stream_s": round(time.time() - t_stream, 2), "udp_queue_peak": self.peak_queue})
 
         # ---- C02: memory after the stream
-        hwm = proc_status_kb(vf.proc.pid, "VmHWM")
-        sys1 = sys_stats(vf)
-        nworkers = 4 * self.workers
-        rss_bound = RSS_FLOOR_KB + (4 * 1000 + 2 * nworkers) * self.udp_size // 1024
-        self.sample.update({"vmhwm_kb": hwm, "vmhwm_bound_kb": rss_bound})
-        # an excess is finding K4 (`fail:amplification`) only as far as the zero-length term explains it: the reference counted
-        # k4_fields decoded fields beyond the octets of their datagrams; anything above that is an ordinary violation
-        k4_alloc = ALLOC_PER_EXTRA_FIELD * k4_fields
-        k4_txt = ("; the stream installs templates with up to %d zero-length field specifiers: %d decoded fields consume no octet of "
-                  "their datagram (K4), allowance %d bytes" % (zmax, k4_fields, k4_alloc))
-        if hwm is not None and hwm > rss_bound:
-            self.fail("amplification" if hwm <= rss_bound + k4_alloc // 1024 else "rss",
-                      "VmHWM of the collector is %d kB after %d datagrams (%d octets); bound for %d workers and read buffers of %d octets: %d kB%s"
-                      % (hwm, len(items), self.sample["octets"], nworkers, self.udp_size, rss_bound, k4_txt if k4_fields else ""))
-        if sys0 and sys1:
-            alloc = sys1["MemTotalAlloc"] - sys0["MemTotalAlloc"]
-            lin = (ALLOC_BASE + sum(ALLOC_PER_DGRAM + ALLOC_PER_OCTET * min(len(it.dg), self.udp_size) for it in items)
-                   + ALLOC_PER_POLL * (self.polls + 2) + int(ALLOC_PER_SECOND * (time.time() - t_stream + 1)))
-            self.sample.update({"total_alloc": alloc, "total_alloc_bound": lin})
-            if alloc > lin:
-                self.fail("amplification" if alloc <= lin + k4_alloc else "alloc",
-                          "the collector reports %d bytes allocated (/sys MemTotalAlloc) for %d datagrams of %d octets in all; linear bound %d%s"
-                          % (alloc, len(items), self.sample["octets"], lin, k4_txt if k4_fields else ""))
-        if self.findings:
-            raise Abort()
+        self.memory(vf, items, sys0, t_stream, "after the stream")
 
         # ---- C01 / C02: still alive, still decoding
+        self.when = "after the stream, while the probes were being sent"
         t_probe = time.time()
-        self.send(probes_t)
-        self.wait_quiet("after the probe templates", lines=False)
-        self.send(probes_d)
         try:
+            self.send(probes_t)
+            self.wait_quiet("after the probe templates", lines=False)
+            self.send(probes_d)
             self.wait_quiet("after the probe datagrams (fresh template + data record, NetFlow v5, sFlow)")
         except Abort as a:
             if not a.skip:
@@ -652,7 +681,13 @@ class Cycle:
         self.sample["probe_latency_s"] = round(lat, 3)
         if lat > PROBE_LATENCY_S:
             self.fail("latency", "the probes sent after the stream were decoded and published after %.1f s (bound %.0f s)" % (lat, PROBE_LATENCY_S))
-        self.check_sink(final=True)
+            raise Abort()
+
+        # ---- thorough tier: a burst at full speed. Loss is expected (socket buffer, 1000-slot queues): only the halves of the
+        #      demands that survive loss are made
+        if burst:
+            self.burst_phase(vf, burst)
+            self.memory(vf, items + burst, sys0, t_stream, "after the stream and the burst")
 
         # ---- C01: stderr, SIGTERM, exit status
         rc, lat_exit = vf.stop(signal.SIGTERM)
@@ -666,7 +701,56 @@ class Cycle:
             self.fail("exit", "SIGTERM after the stream: exit status %s (%.1f s): %s" % (rc, lat_exit, log[-300:].replace("\n", " | ")))
         # nothing may arrive at the sink after the last check either (a late duplicate)
         time.sleep(0.02)
-        self.check_sink(final=True)
+        self.absorb()
+        m = self.missing()
+        if m:
+            self.fail("missing", m)
+
+    def burst_phase(self, vf, burst):
+        self.when = "during the burst"
+        n = {p: sum(1 for it in burst if it.proto == p) for p in PROTOS}
+        cnt = {p: sum(1 for it in burst if it.proto == p and counts_as_decoded(it)) for p in PROTOS}
+        base = self.counters(self.stats())
+        t0 = time.time()
+        self.send(burst, paced=False)
+        last, t_prog = None, time.time()
+        while True:
+            st = self.stats()
+            self.absorb()
+            cur = self.counters(st)
+            short = None
+            for p in PROTOS:
+                u, d = cur[p][0] - base[p][0], cur[p][1] - base[p][1]
+                self.peak_queue = max(self.peak_queue, st[STAT[p]].get("UDPQueue", 0))
+                if u > n[p]:
+                    self.fail("count", "%s UDPCount moved by %d during a burst of %d datagrams to its port" % (STAT[p], u, n[p]))
+                if d > cnt[p] or d > u:
+                    self.fail("count", "%s DecodedCount moved by %d during a burst of %d datagrams to its port, %d of them received (UDPCount), "
+                              "%d of them decodable (reference)" % (STAT[p], d, n[p], u, cnt[p]))
+                if d < u - (n[p] - cnt[p]):
+                    short = "%s DecodedCount moved by %d during the burst: %d datagrams were received (UDPCount) and only %d of the %d sent do not decode" % (
+                        STAT[p], d, u, n[p] - cnt[p], n[p])
+            if self.findings:
+                raise Abort()
+            if (cur, self.seen) != last:
+                last, t_prog = (cur, self.seen), time.time()
+            else:
+                idle = time.time() - t_prog
+                if idle > 0.3:
+                    queued = self.queued(st)
+                    if not queued and not short:
+                        break
+                    if idle > NO_PROGRESS_S:
+                        if queued:
+                            self.fail("stall", "no progress of UDPCount / DecodedCount for %.0f s after the burst while datagrams are queued (%s)" % (NO_PROGRESS_S, "; ".join(queued)))
+                        else:
+                            self.fail("count-short", short + " (no counter has moved for %.0f s, nothing is queued)" % NO_PROGRESS_S)
+                        raise Abort()
+            time.sleep(0.01)
+        cur = self.counters(self.stats())
+        self.sample.update({"burst_sent": n, "burst_received": {p: cur[p][0] - base[p][0] for p in PROTOS},
+                            "burst_decoded": {p: cur[p][1] - base[p][1] for p in PROTOS}, "burst_s": round(time.time() - t0, 2),
+                            "burst_published": sum(max(0, g - self.must.get(l, 0)) for l, g in self.got.items())})
 
 
 def traffic_cycle(n, seed, binary, params=None):
@@ -809,5 +893,5 @@ if __name__ == "__main__":
     print(ok, err[-300:])
     for i in range(int(sys.argv[1]) if len(sys.argv) > 1 else 3):
         t0 = time.time()
-        res = traffic_cycle(i, int(os.environ.get("VERIF_SEED", "1")), binary, {"dg": int(os.environ.get("DG", "300"))})
+        res = traffic_cycle(i, int(os.environ.get("VERIF_SEED", "1")), binary, {"dg": int(os.environ.get("DG", "300")), "burst": int(os.environ.get("BURST", "0"))})
         print(round(time.time() - t0, 2), res[0], res[1], json.dumps(res[2]))
